@@ -51,7 +51,7 @@ def thicknesses(n, unequal):
     return [pat[i % len(pat)] for i in range(n)]
 
 
-def run_case(c, builder, detector, unequal, lazy_too=True, crystal=False):
+def run_case(c, builder, detector, unequal, lazy_too=True, crystal=False, ncfg=1):
     import abtem
     n = c["n"]
     th = thicknesses(n, unequal)
@@ -66,7 +66,7 @@ def run_case(c, builder, detector, unequal, lazy_too=True, crystal=False):
     atoms = Atoms(sym, positions=pos, cell=(4.0, 4.0, z), pbc=True)
     ep = exit_planes_arg(c["spec"])
     ev_result = {"e": "Result", "kind": "c07", "raised": False, "planes": list(c["planes"]), "planes_ppb": [], "axis_fp": [],
-                 "slice_fp": [fixed(t) for t in th], "lazy_ppb": 0}
+                 "slice_fp": [fixed(t) for t in th], "lazy_ppb": 0, "ncfg": ncfg}
     sink = Sink()
     try:
         if crystal:
@@ -74,6 +74,10 @@ def run_case(c, builder, detector, unequal, lazy_too=True, crystal=False):
             unit_atoms = Atoms(sym[:half], positions=pos[:half], cell=(4.0, 4.0, sum(th[:half])), pbc=True)
             unit = abtem.Potential(unit_atoms, gpts=16, slice_thickness=tuple(th[:half]), projection="infinite")
             pot = abtem.CrystalPotential(unit, repetitions=(1, 1, 2), exit_planes=ep)
+        elif ncfg > 1:
+            # a frozen-phonon ensemble (configurations kept apart): every configuration has its own thickness series
+            fp = abtem.FrozenPhonons(atoms, num_configs=ncfg, sigmas=0.08, seed=tuple(range(11, 11 + ncfg)), ensemble_mean=False)
+            pot = abtem.Potential(fp, gpts=16, slice_thickness=tuple(th), exit_planes=ep, projection="infinite")
         else:
             pot = abtem.Potential(atoms, gpts=16, slice_thickness=tuple(th), exit_planes=ep, projection="infinite")
         if tuple(pot.exit_planes) != tuple(c["planes"]):
@@ -94,7 +98,7 @@ def run_case(c, builder, detector, unequal, lazy_too=True, crystal=False):
         planes = ev_result["planes"]
         multi = len(planes) > 1
         # incident wave / truncated runs
-        for j, p in enumerate(planes):
+        for k, j, p in [(k, j, p) for k in range(ncfg) for j, p in enumerate(planes)]:
             if p == -1:
                 if builder == "plane":
                     ref_obj = wave.build(lazy=False) if hasattr(wave, "build") else None
@@ -103,11 +107,12 @@ def run_case(c, builder, detector, unequal, lazy_too=True, crystal=False):
                     wv = abtem.Probe(energy=100e3, semiangle_cutoff=25, extent=pot.extent, gpts=pot.gpts).build(lazy=False, **kw)
                 ref = wv if dets is None else dets.detect(wv)
             else:
-                sub = abtem.PotentialArray(np.asarray(parr.array)[: p + 1].copy(), slice_thickness=tuple(th[: p + 1]),
-                                           sampling=parr.sampling)
+                pa = np.asarray(parr.array) if ncfg == 1 else np.asarray(parr.array)[k]
+                sub = abtem.PotentialArray(pa[: p + 1].copy(), slice_thickness=tuple(th[: p + 1]), sampling=parr.sampling)
                 ref = wave.multislice(sub, detectors=dets, lazy=False) if builder == "plane" else wave.multislice(sub, detectors=dets, lazy=False, **kw)
             ref = np.squeeze(arr(ref))
-            got = full[j] if multi else full
+            fk = full if ncfg == 1 else full[k]
+            got = fk[j] if multi else fk
             ev_result["planes_ppb"].append(ppb(relerr(np.squeeze(got), ref)))
         if multi:
             ax = [a for a in res.ensemble_axes_metadata if type(a).__name__ == "ThicknessAxis"]
@@ -149,7 +154,7 @@ def self_test(ctx: Ctx):
             {"e": "MsDetect", "plane": 2, "after_slice": 1, "depth": 4000000},
             {"e": "MsEnd"},
             {"e": "Result", "kind": "c07", "raised": False, "planes": [-1, 0, 1], "planes_ppb": [0, 100, 200], "axis_fp": [0, 2000000, 4000000],
-             "slice_fp": [2000000, 2000000]}]
+             "slice_fp": [2000000, 2000000], "ncfg": 1}]
     b1 = [e for i, e in enumerate(good) if i != 4]                                   # a detection removed
     b2 = json.loads(json.dumps(good)); b2[-1]["planes_ppb"][1] = 9 * 10 ** 6          # plane differs from truncated run
     b3 = json.loads(json.dumps(good)); b3[5]["norm"] = 300000                         # intensity created
@@ -164,7 +169,7 @@ def self_test(ctx: Ctx):
 def run(ctx: Ctx):
     quick = ctx.tier == "quick"
     ctx.rule = ("(number of slices, exit_planes argument) enumerated by TLC from MultisliceImpl; each on real potentials with equal "
-                "and unequal slice thicknesses, PlaneWave / Probe, Waves / pixelated detection, eager (hook events) and lazy; "
+                "and unequal slice thicknesses, PlaneWave / Probe, Waves / pixelated detection, eager (hook events) and lazy; frozen-phonon ensembles of 2-3 configurations kept apart (every configuration's series against its own truncated runs); "
                 "non-trivial = more than one exit plane")
     r = ctx.design_check("MultisliceImpl", cfg_text=CFG.format(n=4 if quick else 6, k=1), label="MultisliceImpl=>Multislice", workers=1,
                          timeout=3000)
@@ -182,6 +187,12 @@ def run(ctx: Ctx):
             meta = {"case": c, "builder": builder, "detector": det, "unequal": unequal}
             items.append((meta, t))
             ctx.case(json.dumps(meta), nontrivial=len(c["planes"]) > 1)
+        if (-1 in c["planes"] or len(c["planes"]) > 1) and c["n"] <= 3:
+            for builder, det in (("plane", "waves"), ("probe", "waves"), ("plane", "pixelated")):
+                t = run_case(c, builder, det, True, lazy_too=(j % 2 == 0), ncfg=2 if builder == "plane" else 3)
+                meta = {"case": c, "builder": builder, "detector": det, "unequal": True, "ncfg": 2 if builder == "plane" else 3}
+                items.append((meta, t))
+                ctx.case(json.dumps(meta))
         if c["n"] % 2 == 0 and c["n"] >= 4:
             t = run_case(c, "plane", "waves", True, lazy_too=False, crystal=True)
             meta = {"case": c, "builder": "plane", "detector": "waves", "unequal": True, "crystal": True}
@@ -200,7 +211,7 @@ def run(ctx: Ctx):
 
 def replay(ctx: Ctx, case):
     m = case["meta"]
-    t = run_case(m["case"], m["builder"], m["detector"], m["unequal"], crystal=m.get("crystal", False))
+    t = run_case(m["case"], m["builder"], m["detector"], m["unequal"], crystal=m.get("crystal", False), ncfg=m.get("ncfg", 1))
     ctx.case("replay")
     ctx.sample({"meta": m, "trace": t})
     judge(ctx, [(m, t)])
